@@ -42,7 +42,9 @@ EXPECTED_PROBES = ["write_pandas", "write_dask", "read_pandas", "read_dask", "re
                    "dataset_written_again_at_same_path", "dataset_written_from_a_frame_read_back",
                    "earlier_lazy_read_computed_again",
                    "read_dask_list_of_pandas_file_and_dask_dataset",
-                   "sibling_file_same_fields_other_index_kind"]
+                   "sibling_file_same_fields_other_index_kind",
+                   "read_dask_list_naming_a_dataset_twice",
+                   "read_dask_glob_matching_underscore_directory"]
 
 
 def cases(tier, base_seed):
@@ -64,6 +66,12 @@ def cases(tier, base_seed):
         if split:
             steps.append({"op": "write_dask", "ds": "D1", "rows": list(range(half, n)),
                           "nparts": rng.choice((1, 2, 3, 12)), "compression": comp()})
+        if split and rng.random() < 0.3:
+            # a dataset whose directory name starts with an underscore, inside a wider glob
+            steps.append({"op": "write_dask", "ds": "D4", "rows": list(range(min(2, n))),
+                          "nparts": 1, "compression": comp()})
+            steps.append({"op": "read_dask", "how": "glob_all", "ds": ["D4", "D0", "D1"],
+                          "columns": None})
         if split:
             # a third dataset outside the glob pattern, for lists mixing a glob and a path
             steps.append({"op": "write_dask", "ds": "D2", "rows": list(range(min(3, n))),
@@ -99,8 +107,13 @@ def cases(tier, base_seed):
                 # in one read (they store a default / unnamed index differently)
                 steps.append({"op": "read_dask", "how": "writers",
                               "ds": rng.choice((["P", "D0"], ["D0", "P"])), "columns": proj()})
-            else:
+            elif r < 0.97:
                 steps.append({"op": "read_dask", "how": "mixed", "ds": ["D0", "D1", "D2"],
+                              "glob_first": rng.random() < 0.5, "columns": proj()})
+            else:
+                # a list naming one dataset explicitly AND through a glob that matches it
+                # again: every entry of the list is read, in the order given
+                steps.append({"op": "read_dask", "how": "overlap", "ds": ["D0", "D1"],
                               "glob_first": rng.random() < 0.5, "columns": proj()})
         if spec["index"].get("name") and spec["index"]["name"] not in spec["order"] \
                 and rng.random() < 0.3:
@@ -224,7 +237,7 @@ def _drive_steps(case, root, fs, probes, sig):
     paths = {"P": os.path.join(root, "pd", "P.parquet"),
              "D0": os.path.join(root, "dk", "ds_0"), "D1": os.path.join(root, "dk", "ds_1"),
              "D2": os.path.join(root, "dk2", "extra"), "D3": os.path.join(root, "dk2", "copy"),
-             "S": os.path.join(root, "pd", "S.parquet")}
+             "S": os.path.join(root, "pd", "S.parquet"), "D4": os.path.join(root, "dk", "_ds_9")}
     lazy = []        # (lazy frame, rows, columns, version of its dataset when it was read)
     version = {}
     for step in case["steps"]:
@@ -323,6 +336,19 @@ def _drive_steps(case, root, fs, probes, sig):
                 arg = [g, paths["D2"]] if step["glob_first"] else [paths["D2"], g]
                 dss = ["D0", "D1", "D2"] if step["glob_first"] else ["D2", "D0", "D1"]
                 probes["read_dask_list_mixing_glob_and_path"] = 1
+            elif step["how"] == "overlap":
+                if not {"D0", "D1"} <= set(model):
+                    continue
+                g = os.path.join(root, "dk", "ds_*")
+                arg = [g, paths["D0"]] if step["glob_first"] else [paths["D0"], g]
+                dss = ["D0", "D1", "D0"] if step["glob_first"] else ["D0", "D0", "D1"]
+                probes["read_dask_list_naming_a_dataset_twice"] = 1
+            elif step["how"] == "glob_all":
+                if not {"D0", "D1", "D4"} <= set(model):
+                    continue
+                arg = os.path.join(root, "dk", "*ds_*")
+                dss = ["D4", "D0", "D1"]          # sorted path order: '_ds_9' < 'ds_0' < 'ds_1'
+                probes["read_dask_glob_matching_underscore_directory"] = 1
             elif step["how"] == "writers":
                 arg = [paths[d] for d in dss]
                 probes["read_dask_list_of_pandas_file_and_dask_dataset"] = 1
@@ -345,7 +371,8 @@ def _drive_steps(case, root, fs, probes, sig):
                 raise Bad("columns-argument-mutated", f"read_parquet_dask changed the caller's "
                           f"columns list from {given} to {cols}")
             # a list is read in the order given, a glob in sorted path order
-            order = dss if step["how"] in ("list", "mixed", "writers") else sorted(dss)
+            order = dss if step["how"] in ("list", "mixed", "writers", "overlap", "glob_all") \
+                else sorted(dss)
             rows = [r for d in order for r in model[d]]
             _compare(got, spec, rows, cols, f"read_parquet_dask[{step['how']}]", GeoDataFrame, sig)
             lazy.append((ddf, rows, given, {d: version.get(d, 0) for d in dss}))
